@@ -60,7 +60,7 @@ def _times(n):
 def fam_list():
     return ['constant_path', 'squared_path', 'sine_path', 'rfi_uniform_stationary', 'rfi_normal_walk',
             'constant_t', 'sine_t', 'box_f', 'gaussian_f', 'multiple_gaussian_f', 'lorentzian_f', 'voigt_f',
-            'sinc2_f_trunc', 'sinc2_f_fwhm_notrunc', 'constant_bp', 'func_utils', 'periodic_gaussian_t']
+            'sinc2_f_trunc', 'sinc2_f_fwhm_notrunc', 'constant_bp', 'func_utils', 'periodic_gaussian_t', 'units']
 
 
 def run_family(name):
@@ -166,6 +166,34 @@ def run_family(name):
             out1 = bp_profiles.constant_bp_profile()(_times(2))
             pairs.append((out1, RV(1)))
             inputs = dict(level=lv)
+        elif name == 'units':
+            # every factory that documents unit-carrying parameters, called with quantities (MHz, kHz, kHz/s, ms) and
+            # with the same values as plain SI numbers: the closures agree at arbitrary arguments
+            from props.frame_common import SQ
+            fM, dk, pms, ak, wk, w2k = S('f_start_MHz'), S('drift_kHz_s'), S('period_ms'), S('amp_kHz'), S('width_kHz'), S('width2_kHz')
+            pre = [pms.t > 0, wk.t > 0, w2k.t > 0]
+            f0, d, per, amp, w, w2 = fM * 1000000, dk * 1000, pms / 1000, ak * 1000, wk * 1000, w2k * 1000
+            qf0, qd, qper, qamp, qw, qw2 = SQ(fM, 'MHz'), SQ(dk, 'kHz / s'), SQ(pms, 'ms'), SQ(ak, 'kHz'), SQ(wk, 'kHz'), SQ(w2k, 'kHz')
+            t = _times(2)
+            ff, fc = S('f'), S('f_center')
+            with frame_patches(proxy=proxy, units=True):
+                cases = [
+                    ('constant_path', paths.constant_path(qf0, qd)(t), paths.constant_path(f0, d)(t)),
+                    ('squared_path', paths.squared_path(qf0, qd)(t), paths.squared_path(f0, d)(t)),
+                    ('sine_path', paths.sine_path(qf0, qd, qper, qamp)(t), paths.sine_path(f0, d, per, amp)(t)),
+                    ('simple_rfi_path', paths.simple_rfi_path(qf0, qd, qw, spread_type='uniform', rfi_type='stationary', seed=5)(t),
+                     paths.simple_rfi_path(f0, d, w, spread_type='uniform', rfi_type='stationary', seed=5)(t)),
+                    ('sine_t_profile', t_profiles.sine_t_profile(qper, 0.25, 2.0, 3.0)(t), t_profiles.sine_t_profile(per, 0.25, 2.0, 3.0)(t)),
+                    ('box_f_profile', [f_profiles.box_f_profile(qw)(ff, fc)], [f_profiles.box_f_profile(w)(ff, fc)]),
+                    ('gaussian_f_profile', [f_profiles.gaussian_f_profile(qw)(ff, fc)], [f_profiles.gaussian_f_profile(w)(ff, fc)]),
+                    ('multiple_gaussian_f_profile', [f_profiles.multiple_gaussian_f_profile(qw)(ff, fc)], [f_profiles.multiple_gaussian_f_profile(w)(ff, fc)]),
+                    ('lorentzian_f_profile', [f_profiles.lorentzian_f_profile(qw)(ff, fc)], [f_profiles.lorentzian_f_profile(w)(ff, fc)]),
+                    ('voigt_f_profile', [f_profiles.voigt_f_profile(qw, qw2)(ff, fc)], [f_profiles.voigt_f_profile(w, w2)(ff, fc)]),
+                    ('sinc2_f_profile', [f_profiles.sinc2_f_profile(qw)(ff, fc)], [f_profiles.sinc2_f_profile(w)(ff, fc)]),
+                ]
+            for nm, a, b in cases:
+                pairs += list(zip(list(a), list(b)))
+            inputs = dict(f_start_MHz=fM, drift_kHz_s=dk, period_ms=pms, amp_kHz=ak, width_kHz=wk, width2_kHz=w2k)
         elif name == 'func_utils':
             x, x0, s, g = S('x'), S('x0'), S('sigma'), S('gamma')
             pre = [s.t > 0, g.t > 0]
@@ -268,6 +296,24 @@ def replay_family(p):
     import setigen as stg
     from scipy.special import wofz
     name, v = p['name'], p['vals']
+    if name == 'units':
+        import astropy.units as u
+        t = np.array([0.0, 3.5, 11.0])
+        f, fc = np.linspace(990.0, 1010.0, 9), 1000.0
+        cases = [
+            ('constant_path', stg.constant_path(1e-3 * u.MHz, 2e-3 * u.kHz / u.s)(t), stg.constant_path(1e3, 2.0)(t)),
+            ('squared_path', stg.squared_path(1e-3 * u.MHz, 2e-3 * u.kHz / u.s)(t), stg.squared_path(1e3, 2.0)(t)),
+            ('sine_path', stg.sine_path(1e-3 * u.MHz, 2e-3 * u.kHz / u.s, 7000 * u.ms, 0.004 * u.kHz)(t), stg.sine_path(1e3, 2.0, 7.0, 4.0)(t)),
+            ('simple_rfi_path', stg.simple_rfi_path(1e-3 * u.MHz, 2e-3 * u.kHz / u.s, 0.006 * u.kHz, seed=5)(t), stg.simple_rfi_path(1e3, 2.0, 6.0, seed=5)(t)),
+            ('sine_t_profile', stg.sine_t_profile(7000 * u.ms, 0.25, 2.0, 3.0)(t), stg.sine_t_profile(7.0, 0.25, 2.0, 3.0)(t)),
+            ('periodic_gaussian_t_profile', stg.periodic_gaussian_t_profile(pulse_width=2000 * u.ms, period=7000 * u.ms, phase=0.5, pulse_offset_width=100 * u.ms, pulse_direction='up', pnum=2, amplitude=1.0, level=0.1, seed=3)(t),
+             stg.periodic_gaussian_t_profile(pulse_width=2.0, period=7.0, phase=0.5, pulse_offset_width=0.1, pulse_direction='up', pnum=2, amplitude=1.0, level=0.1, seed=3)(t)),
+        ]
+        for nm in ('box_f_profile', 'gaussian_f_profile', 'multiple_gaussian_f_profile', 'lorentzian_f_profile', 'sinc2_f_profile'):
+            cases.append((nm, getattr(stg, nm)(0.006 * u.kHz)(f, fc), getattr(stg, nm)(6.0)(f, fc)))
+        cases.append(('voigt_f_profile', stg.voigt_f_profile(0.006 * u.kHz, 3e-6 * u.MHz)(f, fc), stg.voigt_f_profile(6.0, 3.0)(f, fc)))
+        bad = [nm for nm, a, b in cases if not np.allclose(a, b, rtol=1e-9, atol=1e-12)]
+        return bool(bad), f"factories giving other values for unit-carrying than for plain SI arguments: {bad}" if bad else 'unit-carrying factory arguments agree with plain numbers'
     if not v:
         return False, 'no concrete inputs recorded'
     fw = 2 * math.sqrt(2 * math.log(2))
